@@ -22,7 +22,7 @@ from bitproto._ast import (
 )
 from bitproto.errors import InternalError
 from bitproto.renderer.formatter import CaseStyleMapping, Formatter
-from bitproto.utils import override
+from bitproto.utils import int_literal, override
 
 
 class CFormatter(Formatter):
@@ -93,7 +93,7 @@ class CFormatter(Formatter):
 
     @override(Formatter)
     def format_int_value(self, value: int) -> str:
-        return "{0}".format(value)
+        return int_literal(value)
 
     ###########################
     # Type literal representing
